@@ -40,22 +40,34 @@ def _inline(fi, expr):
     return cur
 
 
-def is_negation(a, b):
+def negation_verdict(a, b):
+    """'neg' (b is -a), 'same' (b is a: the negation was forgotten), 'partial' (a linear constructor
+    with some argument not negated), or 'unknown' (a form the rule does not interpret)."""
     if isinstance(b, ast.UnaryOp) and isinstance(b.op, ast.USub) and ntext(b.operand) == ntext(a):
-        return True
+        return 'neg'
     if isinstance(a, ast.UnaryOp) and isinstance(a.op, ast.USub) and ntext(a.operand) == ntext(b):
-        return True
+        return 'neg'
+    if ntext(a) == ntext(b):
+        return 'same'
     if isinstance(a, ast.Call) and isinstance(b, ast.Call) and ntext(a.func) == ntext(b.func) \
             and ntext(a.func) in LINEAR_CTORS and len(a.args) == len(b.args):
         lin = LINEAR_CTORS[ntext(a.func)]
+        verdicts = []
         for i, (x, y) in enumerate(zip(a.args, b.args)):
             if i in lin:
-                if not is_negation(x, y):
-                    return False
+                verdicts.append(negation_verdict(x, y))
             elif ntext(x) != ntext(y):
-                return False
-        return True
-    return False
+                return 'unknown'
+        if all(v == 'neg' for v in verdicts):
+            return 'neg'
+        if any(v == 'unknown' for v in verdicts):
+            return 'unknown'
+        return 'partial'
+    return 'unknown'
+
+
+def is_negation(a, b):
+    return negation_verdict(a, b) == 'neg'
 
 
 def is_zero_sense(e):
@@ -176,7 +188,11 @@ def run(repo):
                         coeff = COEFF[c.fq]
             for p in coeff:
                 xa, xb = _inline(fi, ea[p]), _inline(fi, eb[p])
-                if not is_negation(xa, xb):
+                verdict = negation_verdict(xa, xb)
+                if verdict == 'unknown':
+                    raise AnalysisError('%s: cannot tell whether `%s` is the negation of `%s`'
+                                        % (fi.fq, ntext(xb)[:50], ntext(xa)[:50]))
+                if verdict != 'neg':
                     problems.append('argument `%s`: %s vs %s are not negations of each other'
                                     % (p, ntext(xa)[:50], ntext(xb)[:50]))
             for p in ea:
